@@ -1153,7 +1153,17 @@ def d8(ctx, rep):
                     try:
                         return float(t_)
                     except ValueError:
-                        return float(n_unique) if ('unique' in t_ and t_.startswith('len(')) or 'nunique' in t_ else None
+                        pass
+                    if 'nunique' in t_ or ('unique' in t_ and t_.startswith('len(')):
+                        return float(n_unique)
+                    import re as _re
+                    m_ = _re.match(r'len\(([A-Za-z_][A-Za-z_0-9]*)\)$', t_)
+                    if m_:
+                        from ..idioms import single_def
+                        d_ = single_def(cc.node, m_.group(1))
+                        if isinstance(d_, ast.Call) and call_name(d_) in ('unique',):
+                            return float(n_unique)
+                    return None
                 x_, y_ = val(a_), val(b_)
                 if x_ is None or y_ is None:
                     return None
